@@ -486,6 +486,12 @@ impl HalfConnection {
         }
     }
 
+    /// Presets the count of step() calls (it stamps TimeSensitive packets and is meant to wrap):
+    /// a connection that has been stepped 2^32 - k times
+    pub fn verif_preset_step_count(&mut self, count: u32) {
+        self.flush_id = count;
+    }
+
     /// (base id, next id) of the packet send window (read-only)
     pub fn verif_packet_window(&self) -> (u32, u32) {
         (self.packet_sender.base_id(), self.packet_sender.next_id())
